@@ -55,6 +55,8 @@ func mesh3(name string) (*model3d.Mesh, int, int) {
 		return opsVoxelMesh([][3]int{{0, 0, 0}, {1, 0, 0}, {0, 1, 0}}), 2, 1
 	case "voxStairs":
 		return opsVoxelMesh([][3]int{{0, 0, 0}, {1, 0, 0}, {2, 0, 0}, {1, 0, 1}, {2, 0, 1}, {2, 0, 2}, {0, 1, 0}}), 2, 1
+	case "icofine":
+		return model3d.NewMeshIcosphere(model3d.XYZ(0.5, 0.25, 0), 2, 6), 2, 1
 	case "ico":
 		return model3d.NewMeshIcosphere(model3d.XYZ(1, 2, 3), 2, 1), 2, 1
 	case "torus":
